@@ -159,9 +159,20 @@ func ruleC20Size(c *Checker) {
 		c.anchorMissing(R, "slug.Meta.Size")
 		return
 	}
+	totalCopies := 0
 	walkFns := map[*ssa.Function]bool{}
+	var members []*walkInfo
 	for _, w := range pc.Walks {
-		walkFns[w.Fn] = true
+		for f := range p.family(w.Fn) {
+			if !walkFns[f] {
+				walkFns[f] = true
+				if f != w.Fn && len(callsTo(f, func(o *types.Func) bool { return isFunc(o, "io", "Copy") })) > 0 {
+					members = append(members, &walkInfo{Fn: f})
+				}
+			}
+		}
+	}
+	for _, w := range append(append([]*walkInfo{}, pc.Walks...), members...) {
 		wname := p.FuncName(w.Fn)
 		var copies []*ssa.Call
 		for _, ci := range callsTo(w.Fn, func(o *types.Func) bool {
@@ -173,7 +184,7 @@ func ruleC20Size(c *Checker) {
 				copies = append(copies, cl)
 			}
 		}
-		c.check(len(copies) > 0, R, wname, "body copy into the archive", p.Pos(w.Fn.Pos()), fmt.Sprintf("%d copy call(s) into the tar writer", len(copies)), "no io.Copy into the tar writer found")
+		totalCopies += len(copies)
 		isSizeAdd := func(v ssa.Value, cp *ssa.Call) bool {
 			bo, ok := v.(*ssa.BinOp)
 			if !ok || bo.Op != token.ADD {
@@ -234,12 +245,13 @@ func ruleC20Size(c *Checker) {
 			c.check(isSizeAdd(st.Val, nil), R, wname, fmt.Sprintf("Size store %d value", i), p.Pos(st.Pos()), "Meta.Size = Meta.Size + bytes copied", "Meta.Size is assigned something other than the old value plus the bytes copied")
 		}
 	}
+	c.check(totalCopies > 0, R, "-", "body copy into the archive", "-", fmt.Sprintf("%d copy call(s) into the tar writer", totalCopies), "no io.Copy into the tar writer found")
 	for _, fn := range p.Funcs {
 		if walkFns[fn] {
 			continue
 		}
 		for _, st := range storesToField(fn, fv) {
-			c.fail(R, p.FuncName(fn), "foreign write to Meta.Size", p.Pos(st.Pos()), "Meta.Size is written outside the walk callback that copies the bodies")
+			c.fail(R, p.FuncName(fn), "foreign write to Meta.Size", p.Pos(st.Pos()), "Meta.Size is written outside the walk callback (and its private helpers) that copies the bodies")
 		}
 	}
 }
